@@ -132,6 +132,8 @@ type Exec struct {
 	wOther    map[interface{}]bool
 	monitor   *lockMonitor
 	lastModel *Model
+	minfo     map[*ssa.Function]*mergeInfo
+	noMerge   bool
 	finfo     map[*ssa.Function]*fnInfo
 	icept     map[*ssa.Function]interceptFn
 	counters  map[string]int
@@ -278,6 +280,7 @@ func (ex *Exec) branch(c *Term) bool {
 	tOK, fOK := vt != Unsat, vf != Unsat
 	switch {
 	case tOK && fOK:
+		ex.counters["fork@"+ex.where()]++
 		ex.pushFork(Decision{Choice: 0, Kind: 'b'})
 		ex.trace = append(ex.trace, Decision{Choice: 1, Kind: 'b'})
 		ex.assume(c)
@@ -373,6 +376,17 @@ func (ex *Exec) posOf(in ssa.Instruction) string {
 	}
 	p := in.Pos()
 	fn := in.Parent()
+	if iff, ok := in.(*ssa.If); ok && !p.IsValid() {
+		p = iff.Cond.Pos()
+		if !p.IsValid() {
+			if bo, ok := iff.Cond.(*ssa.BinOp); ok {
+				p = bo.X.Pos()
+				if !p.IsValid() {
+					p = bo.Y.Pos()
+				}
+			}
+		}
+	}
 	for !p.IsValid() && fn != nil {
 		p = fn.Pos()
 		break
@@ -651,9 +665,16 @@ func (ex *Exec) call(caller *Frame, fn *ssa.Function, args []Value, env []Value,
 func (ex *Exec) run(fr *Frame) Value {
 	var prev *ssa.BasicBlock
 	block := fr.fn.Blocks[0]
+	skipPhis := false
 	for {
 		var next *ssa.BasicBlock
+		merged := false
 		for _, in := range block.Instrs {
+			if skipPhis {
+				if _, isPhi := in.(*ssa.Phi); isPhi {
+					continue
+				}
+			}
 			ex.steps++
 			if ex.steps > ex.maxSteps {
 				panic(pathEnd{kind: endBudget, msg: "step budget at " + ex.posOf(in)})
@@ -669,6 +690,13 @@ func (ex *Exec) run(fr *Frame) Value {
 				}
 			case *ssa.If:
 				c := ex.get(fr, x.Cond).(*Term)
+				if !c.IsConst() {
+					if j := ex.tryMerge(fr, block, c); j != nil {
+						next = j
+						merged = true
+						break
+					}
+				}
 				if ex.branch(c) {
 					next = block.Succs[0]
 				} else {
@@ -730,6 +758,7 @@ func (ex *Exec) run(fr *Frame) Value {
 			panic(pathEnd{kind: endEngine, msg: "block fell through in " + fr.fn.String()})
 		}
 		prev, block = block, next
+		skipPhis = merged
 	}
 }
 
